@@ -42,7 +42,7 @@ CLASSES = ["L1Reg", "L1Reg-arr", "L2Reg", "L2Reg-y", "L2Reg-L1", "L2Reg-Box", "L
            "fn-soft_thresh", "fn-l1_proj", "fn-l2_proj", "fn-linf_proj", "fn-psd_proj",
            "fn-hard_thresh"]
 INPUTS = ["gauss", "gauss-big", "zeros", "boundary", "interior", "ties", "tiny", "huge",
-          "const", "onehot", "pow2", "small-int", "alternating"]
+          "const", "onehot", "pow2", "small-int", "alternating", "zeros-mixed", "denormal"]
 PSD_INPUTS = ["sym", "herm", "nonherm", "rankdef", "repeated", "identity", "zero", "psd",
               "negdef", "psd-plus-skew", "skew", "triangular"]
 
@@ -184,7 +184,8 @@ def make_input(rng, inp, shape, cplx, info, alpha):
     if k == "box":
         dt = np.float64
     y = crandn(rng, shape, dt)
-    if inp in ("const", "onehot", "pow2", "small-int", "alternating"):
+    if inp in ("const", "onehot", "pow2", "small-int", "alternating", "zeros-mixed",
+               "denormal"):
         # data with structure Gaussian draws never have (equal entries, a single non-zero,
         # exact powers of two, small integers, alternating signs)
         with structured(STRUCT_KINDS.index(inp)):
@@ -333,7 +334,10 @@ def run_case(case):
     if cls.startswith("fn-"):
         return run_fn(case, rng)
     P, shape, info = build(cls, rng, cplx)
-    if "Stack" in cls and cls == "Stack-alpha":
+    if ("Stack" in cls and cls == "Stack-alpha") or (
+            case["pseed"] % 5 == 0 and cls in ("L1Reg", "L2Reg", "L2Reg-y", "Conj-L1Reg",
+                                               "Conj-L2Reg-y", "Conj-L2Proj", "Conj-LInfProj")):
+        # element-wise step sizes (as the accelerated primal-dual solver passes them)
         alpha = np.abs(crandn(rng, shape, np.float64)) * float(10 ** rng.uniform(-2, 1)) + 1e-3
     else:
         alpha = float(10 ** rng.uniform(-3, 2))
@@ -422,7 +426,14 @@ def run_case(case):
     # must not remember anything from earlier calls
     if isinstance(x, np.ndarray) and x.shape == y.shape:
         try:
-            a2 = alpha * 3.7 if np.ndim(alpha) == 0 else alpha * 0.31
+            if np.ndim(alpha) == 0:
+                a2 = alpha * 3.7
+            else:
+                # the caller rescales its own step-size array in place (same object, other
+                # values: anything derived from it must not be remembered by identity) and
+                # restores it exactly afterwards (factor 2)
+                alpha *= 0.5
+                a2 = alpha
             y2 = (y0 * 0.5 + crandn(rng, shape, y0.dtype) * (0.1 + float(np.max(np.abs(y0)))
                                                               if y0.size else 1.0))
             if info["k"] == "psd":
@@ -430,6 +441,8 @@ def run_case(case):
             if info["k"] in ("box", "real"):
                 y2 = np.real(y2).astype(y0.dtype)
             P(a2, y2)
+            if np.ndim(alpha) != 0:
+                alpha *= 2.0
             x3 = P(alpha, y0)
         except Exception as e:
             inn = e
